@@ -101,6 +101,13 @@ func (a sortableNodeArray) Less(i, j int) bool {
 }
 
 func (a sortableNodeArray) compare(lhs *CandidateNode, rhs *CandidateNode, dateTimeLayout string) int {
+	// an alias is ordered as the node it stands for
+	if lhs.Kind == AliasNode && lhs.Alias != nil {
+		lhs = lhs.Alias
+	}
+	if rhs.Kind == AliasNode && rhs.Alias != nil {
+		rhs = rhs.Alias
+	}
 	lhsTag := lhs.Tag
 	rhsTag := rhs.Tag
 
